@@ -112,6 +112,12 @@ def install_fault(sim, fault):
         elif kind == 'sigstop':
             sim.gate_open('fault')
             sim.stop_proc(t.proc)
+        elif kind == 'stopcont':
+            # the whole process of the triggering thread is stopped (SIGSTOP) and continued a little later: every blocking
+            # system call of the process is interrupted, nothing else happens to it
+            p = t.proc
+            sim.stop_proc(p)
+            sim.add_timer(sim.now + fault.get('duration', 0.05), lambda: sim.cont_proc(p))
         elif kind == 'gate':
             sim.gate_open('fault')
         elif kind == 'stall':
@@ -127,7 +133,10 @@ def install_fault(sim, fault):
         def bh(sim, t, what):
             if fault.get('thread') and t.name != fault['thread']:
                 return
-            if fault.get('thread') is None and not is_victim(sim, t):
+            if fault.get('role') is not None:
+                if t.role != fault['role']:
+                    return
+            elif fault.get('thread') is None and not is_victim(sim, t):
                 return
             if what and str(what).startswith(fault['on_block']):
                 st['n'] += 1
